@@ -7,7 +7,6 @@ objects.
 import asyncio
 import contextlib
 import logging
-import struct
 from collections import deque
 from collections.abc import Awaitable, Callable, Coroutine, Iterable
 from dataclasses import dataclass
@@ -464,12 +463,6 @@ class AirTouchSocket(Generic[comms.Hdr]):
                 else:
                     self._log_dropped_message(entry, "expired")
 
-        except (ValueError, NotImplementedError, struct.error):
-            # This indicates an error encoding this message.
-            # We shouldn't retry this message, but the connection doesn't need
-            # to be reset.
-            _LOGGER.exception("Encoding error for message %s", entry.message)
-
         except OSError as ex:
             # Connection errors may turn up here rather than in the read method.
             # This would often indicate we had a half-open socket where the
@@ -488,6 +481,14 @@ class AirTouchSocket(Generic[comms.Hdr]):
                     )
                 )
             await self.reset_connection()
+
+        except Exception:
+            # Anything else indicates an error encoding this message (the
+            # encoders raise ValueError, struct.error, KeyError, ... depending
+            # on what is wrong with the message).
+            # We shouldn't retry this message, but the connection doesn't need
+            # to be reset.
+            _LOGGER.exception("Encoding error for message %s", entry.message)
 
     async def _write(self, header: comms.Hdr, message: comms.Message) -> None:
         """Writes a single message to the stream.
